@@ -93,7 +93,10 @@ def run(ctx):
                        'strings are valid UTF-8 (generator alphabet); SPDX .rdf is not an output format of the library and is excluded (f ≠ rdf)']
     ctx.rule = ('case = (stream, output format ~ formats exported before it, inventory); every inventory is ONE ScanResult value exported to all five formats in a generated order (as binary/cli does with several -o flags): the k-th case re-runs the k-1 earlier exports on the same value, exports, scans the file back, and compares the scan result with a deep copy taken before the first export (mut=). The file is written by the real writers (binary/spdx Write23, binary/cdx Write; a quarter of the cases through cli.Flags.WriteScanResults with one -o item per export) to an output path in a generated state — fresh, an existing shorter file, existing LONGER arbitrary bytes, a previous LARGER export in the same format, a longer file that was read-only — and read back from that path. streams: matrix (every purl type x component (name, namespace, version, qualifier values, sub-path) x 15 byte classes that print/parse treat specially: blank % ? # @ / : + & = non-ASCII control %41 %2f and a mix; one inventory per (type, component)), fixed (empty inventory, one package per purl type in lower and '
                 'upper case, the 13-package probe, inventories whose names collide with the exporters\' structural vocabulary: main, main-*, Package-main, SPDXRef-DOCUMENT, NOASSERTION, NONE, SCALIBR, a_b/a-b/a+b …), valid, esc (JSON/YAML/XML/tag-value/URL-sensitive atoms), raw (newlines, tabs, <text>), ctl (control and non-characters), '
-                'malformed (purls packageurl-go rejects). inventory size 0..30, 15% purl-less, 10% with CPE metadata, 1/6 duplicates. non-trivial = at least one package with a purl; '
+                'malformed (purls packageurl-go rejects); cliflags (format names around the supported ones: ValidateFlags must refuse what the writers cannot write and nothing may be created; every --spdx-* / --cdx-* document configuration x format x OUTPUT FILE NAME: '
+                'every extension and base name the importers select by in lower / upper / mixed case, stems with blanks, dots (scan-v1.2), dates and host names, an empty stem, and the names the project itself uses: result.spdx.yaml (cli_test.go), result.cyclonedx.json (-o help text)); '
+                'import (hand-written third-party documents: CPE-only / CPE + purl / two purls / unparsable purl / RDF-style reference types; CycloneDX components nested two levels deep) with fixed expected purls; '
+                'unwritable paths (isdir, nodir: the writer must return an error) and a written file cut in half (the importer must return an error). inventory size 0..30, 15% purl-less, 10% with CPE metadata, 1/6 duplicates. non-trivial = at least one package with a purl; '
                 'distinct = distinct case lines. compared: sorted purl multiset (model vs implementation, and implementation vs Spec), count of purl-less returned packages')
     ok, _ = ctx.lean_build(['Scalibr.Properties.C15', 'drv_c15'])
     proofs_ok = ctx.audit(['Scalibr.Properties.C15'], THEOREMS)
@@ -166,6 +169,12 @@ def run(ctx):
 
     def finding_class(case, fi, fm):
         t = case.split(' ')
+        if t[1] != 'malformed' and fm.get('wf') == '0' and fi.get('st', fi.get('_')) == 'ok' and fi.get('purls') == fm.get('spec'):
+            lost = [unhs(f[5]).lower() for f in packages(case) if f[4] == '1' and f[12] == '!']
+            if lost and all(x in ('cran', 'swift', 'conan') for x in lost):
+                return 'C15/typed-purl-rule-rejected'   # class predicate: everything else came back; the lost purls are ONLY of the types with a packageurl-go custom rule
+        if fi.get('st') == 'not-required' and unhs(fi.get('name', '-')) in ('result.spdx.yaml', 'result.cyclonedx.json'):
+            return 'C15/own-output-name-not-imported'   # class predicate: exactly the two names the project itself uses for these outputs
         if 'cfg4' in t[2].split('~')[0].partition('@')[2].split(',') and fi.get('st', fi.get('_')) == 'panic' and t[2].startswith('spdx23'):
             return 'C15/cli-spdx-creators-without-colon-panics'   # class predicate: SPDX export through the cli with --spdx-creators lacking "TYPE:NAME"
         fmt, st = re.split('[~@]', t[2])[0], fi.get('st', fi.get('_'))
